@@ -143,8 +143,10 @@ def shape_signature(e):
 
 # ---------------------------------------------------------------- building real queries
 class Env:
-    def __init__(self, domains, as_generators=False):
+    def __init__(self, domains, as_generators=False, share_attrs=False):
         self.domains = domains
+        self.share_attrs = share_attrs      # `a = x.a` written once and used in several conditions (one node, several positions)
+        self.attr_cache = {}
         self.vars = {}
         for name, dom in domains.items():
             typ = int if name.startswith("n") else P
@@ -156,6 +158,10 @@ class Env:
         if k == "var":
             return self.vars[o[1]]
         if k == "attr":
+            if self.share_attrs:
+                if (o[1], o[2]) not in self.attr_cache:
+                    self.attr_cache[(o[1], o[2])] = getattr(self.vars[o[1]], o[2])
+                return self.attr_cache[(o[1], o[2])]
             return getattr(self.vars[o[1]], o[2])
         if k == "const":
             return o[1]
